@@ -198,6 +198,30 @@ fn run_lambda(name: &str, lambda: f64, n1_log2: u32, n: usize) -> LambdaResult {
     res
 }
 
+/// generator values around the boundary U = 1/c1 between "first try accepted" and "enter the loop": the sample must stay
+/// in [0,1) for every one of them (a product c1*U that rounds to exactly 1.0 must not be returned)
+fn first_try_boundary(lambda: f64) -> (u64, Option<String>) {
+    let sampler = ExpRestricted01::new(lambda);
+    let c1 = lambda.exp_m1() / lambda;
+    let k0 = ((1u64 << 52) as f64 / c1) as u64;
+    let mut n = 0;
+    for d in -40i64..=40 {
+        let k = k0 as i64 + d;
+        if k < 0 || k >= (1i64 << 52) {
+            continue;
+        }
+        // loop words: a mid value so that the loop accepts quickly
+        let words = [word_for_k(k as u64), word_for_k(1u64 << 50), word_for_k(1u64 << 51), word_for_k(1u64 << 49), word_for_k(1u64 << 51)];
+        let mut s = Script::new(&words);
+        let x = sampler.sample(&mut s);
+        n += 1;
+        if !(0. ..1.).contains(&x) {
+            return (n, Some(format!("lambda {}: first generator value {}*2^-52 (next to 1/c1) gives sample {} outside [0,1)", lambda, k, x)));
+        }
+    }
+    (n, None)
+}
+
 /// extreme generator words in every position: in range and terminating
 fn extremes(lambda: f64, len: usize) -> (u64, Option<String>) {
     let sampler = ExpRestricted01::new(lambda);
@@ -249,6 +273,9 @@ fn check_lambda(ctx: &Ctx, name: &str, lambda: f64, n1_log2: u32, n: usize, deta
     *distinct += r.distinct_outputs_stage1;
     let (nx, xbad) = extremes(lambda, 5);
     *execs += nx;
+    let (nb, bbad) = first_try_boundary(lambda);
+    *execs += nb;
+    let xbad = xbad.or(bbad);
     println!(
         "C16 lambda={} ({:.6e}) P(loop)={:.6} P(accept|loop)={:.6} max|CDF-target|={:.3e} at t={:.4} tol={:.3e} execs={}",
         name, lambda, r.p_loop, r.p_accept, r.max_err, r.worst_t, r.tol, r.executions
@@ -305,7 +332,7 @@ pub fn run(ctx: &Ctx) -> i32 {
         "exhaustive": true,
         "evaluations": execs,
         "distinct_nontrivial": distinct,
-        "rule": "every script over the grid is run on the real sampler: u1 on a 2^20 (thorough 2^22) midpoint grid, (u2,u3) on an NxN midpoint grid behind the loop-forcing first word, plus all 8^5 scripts over extreme words; the 3-state chain first-try/loop/output is solved exactly, P(out<=t)=P1(<=t)+P(loop)*P2(<=t)/P2(accept) on 64 bin edges; distinct = distinct first-try outputs",
+        "rule": "every script over the grid is run on the real sampler: u1 on a 2^20 (thorough 2^22) midpoint grid, (u2,u3) on an NxN midpoint grid behind the loop-forcing first word, plus all 8^5 scripts over extreme words and the 81 generator values around the accept/loop boundary 1/c1; the 3-state chain first-try/loop/output is solved exactly, P(out<=t)=P1(<=t)+P(loop)*P2(<=t)/P2(accept) on 64 bin edges; distinct = distinct first-try outputs",
         "grid_n": n,
         "first_try_grid_log2": n1_log2,
         "cdf_tolerance": "max(1, 0.2/P(accept))/N + 1e-5 (midpoint rule on regions bounded by monotone curves, amplified by the loop normalisation); see max_cdf_error per lambda for what was observed",
